@@ -453,12 +453,31 @@ pub fn run(ctx: &mut Ctx) {
         for variant in 0..3 {
             let c = ladder_case(&env, open, f, &ps, Knobs { w: 1 + variant, variant }, generous, &timing);
             count += 1;
-            if ctx.check_case("ladders", c, serde_json::json!({"family": format!("{:?}", f), "variant": variant})) {
-                return;
-            }
+            ctx.check_case("ladders", c, serde_json::json!({"family": format!("{:?}", f), "variant": variant}));
         }
     }
     ctx.enumerated("ladders", count, true, t0);
+
+    // the fan-out chains: k spreads per level, n levels. With C11-F1 / C11-F2 open they are excluded from the
+    // other streams by construction and probed here (the work beyond the specification must be exactly what the
+    // open quirks predict); with both closed the same ladders are judged by the specification alone.
+    if open.0 {
+        ctx.excluded("C11-F1");
+    }
+    if open.1 {
+        ctx.excluded("C11-F2");
+    }
+    let t0 = Instant::now();
+    let mut count = 0;
+    for (k, ns) in [(2usize, vec![3usize, 4, 5, 6, 7, 8, 9, 10]), (3, vec![2, 3, 4, 5, 6]), (4, vec![2, 3, 4, 5])] {
+        for n in ns {
+            // n -> 2n levels; the witness of the property record is k=2, n=22 (not run: 2^22 selections per walker)
+            let c = ladder_case(&env, open, Family::FanOutChain, &[n, 2 * n], Knobs { w: k, variant: 0 }, generous, &timing).class("fan-out-chain");
+            count += 1;
+            ctx.check_case("fan-out-chains", c, serde_json::json!({"spreads_per_level": k, "levels": n}));
+        }
+    }
+    ctx.enumerated("fan-out-chains", count, true, t0);
 
     // random members of the polynomial families
     let n_fam = ctx.tier.pick(500, 15_000);
@@ -505,29 +524,6 @@ pub fn run(ctx: &mut Ctx) {
             .class_if(td.stats.named_fragments > 0, "named-fragment")
             .class_if(count_spreads(&td.doc) > td.stats.named_fragments as u64, "fragment-spread-twice")
     });
-
-    // the fan-out chains: k spreads per level, n levels. With C11-F1 / C11-F2 open they are excluded from the
-    // streams above by construction and probed here (work must be exactly accounted for by the quirks); with both
-    // closed the same ladders are judged by the specification alone.
-    if open.0 {
-        ctx.excluded("C11-F1");
-    }
-    if open.1 {
-        ctx.excluded("C11-F2");
-    }
-    let t0 = Instant::now();
-    let mut count = 0;
-    for (k, ns) in [(2usize, vec![3usize, 4, 5, 6, 7, 8, 9, 10]), (3, vec![2, 3, 4, 5, 6]), (4, vec![2, 3, 4, 5])] {
-        for n in ns {
-            // n -> 2n levels; the witness of the property record is k=2, n=22 (not run: 2^22 selections per walker)
-            let c = ladder_case(&env, open, Family::FanOutChain, &[n, 2 * n], Knobs { w: k, variant: 0 }, generous, &timing).class("fan-out-chain");
-            count += 1;
-            if ctx.check_case("fan-out-chains", c, serde_json::json!({"spreads_per_level": k, "levels": n})) {
-                return;
-            }
-        }
-    }
-    ctx.enumerated("fan-out-chains", count, true, t0);
 
     let per_family: serde_json::Map<String, serde_json::Value> = timing
         .borrow()
